@@ -186,7 +186,31 @@ CHECKS = {
 ALL = [f"C{i:02d}" for i in range(1, 21)]
 
 
+# additions made after the second round of seeded changes (streams that re-use objects, more numeric types, new theorems)
+EXTRA = {
+    "C09": " One DefaultEquality object is also run over whole sequences of float, integer and string fields, and integer "
+           "scalar/vector mesh fields go through MeshFieldsComparator against relabeled / zero-padded references under large tolerances.",
+    "C11": " Every comparator object is invoked a second time and must reproduce its report.",
+    "C03": " One reference object (plain or sorted once) serves several comparisons in a row; cell-type sets that can only be "
+           "paired many-to-one (QUAD and PIXEL blocks against one QUAD block) must fail.",
+    "C16": " Meshes holding two mutually compatible cell types at once are included.",
+    "C08": " Integer vector/tensor fields that need all 64 bits; merge of pieces with differing point-field sets against the "
+           "zero-fill specification (theorem C08_merge_point_rows_length; finding F-C08b refuted for the pinned row count).",
+    "C06": " Also proved: decomposition and piece positions recovered from the piece extents for all three directions at once and "
+           "every listing order, and pmerge_is_global (the field read through the parallel index is the global field). Runs also "
+           "merge piece objects that already went through a merge, pieces with narrow connectivity types (F-C06f) and with "
+           "differing point-field sets (model tie).",
+    "C07": " Also proved: structured_as_explicit (any two grid kinds of one lattice pass the mesh comparison of C16's model).",
+    "C13": " Also proved: the composed whole-file theorem read_vtu (write_vtu d) = expected_read d with a proved decision procedure "
+           "for its hypotheses, evaluated on every tied data set; arrays are handed to the writer in varying memory layouts.",
+    "C14": " Fields of eight numeric types (the two sides may differ in type; integer extremes), cf. finding F-C14a.",
+}
+
+
 def main():
+    for pid, extra in EXTRA.items():
+        if pid in CHECKS and extra not in CHECKS[pid]["text"]:
+            CHECKS[pid]["text"] += extra
     checks = []
     for pid, d in CHECKS.items():
         checks.append({
